@@ -2,13 +2,13 @@
 //! coq/Spec/SerdeData.v), `Dyn` a value.  Both have a compact ASCII form (tokens joined by `,`):
 //!
 //! types   b | i8 i16 i32 i64 i128 u8 u16 u32 u64 u128 | f32 f64 | c | s | dt da ti | u | v
-//!         O ty | L ty | T<n> ty*n | M kty vty
+//!         O ty | L ty | T<n> ty*n | M kty vty | Y ty (serde_spanned::Spanned<ty>)
 //!         S<n> name (field ty)*n | N name ty | P<n> name ty*n | Z name
 //!         E<n> name variant*n      variant := vu name | vn name ty | vt<n> name ty*n | vs<n> name (field ty)*n
 //!         (names are hex, `-` = empty)
 //! values  B0 B1 | I<dec> | D<16 hex f64 bits> | G<8 hex f32 bits> | C<dec code point> | S<hex utf8> |
 //!         X<hex date-time text> | U | N | O val | L<n> val*n | M<n> (key val)*n | R<n> val*n | W val |
-//!         E<idx> payload | V tomlvalue         tomlvalue := S I D B X L<n> | T<n> (S<key> tomlvalue)*n
+//!         E<idx> payload | Y<start>-<end> val (Spanned) | V tomlvalue         tomlvalue := S I D B X L<n> | T<n> (S<key> tomlvalue)*n
 use std::collections::HashMap;
 use std::sync::Mutex;
 
@@ -61,6 +61,7 @@ pub enum DynType {
     Unit,
     Value,
     Opt(Box<DynType>),
+    Spanned(Box<DynType>),
     Seq(Box<DynType>),
     Tuple(Vec<DynType>),
     Map(Box<DynType>, Box<DynType>),
@@ -85,6 +86,7 @@ pub enum Dyn {
     Value(toml::Value),
     None,
     Some(Box<Dyn>),
+    Spanned(usize, usize, Box<Dyn>),
     Seq(Vec<Dyn>),
     Map(Vec<(Dyn, Dyn)>),
     Rec(Vec<Dyn>),
@@ -195,6 +197,7 @@ pub fn parse_ty(t: &mut Toks<'_>) -> Result<DynType, String> {
         "u" => DynType::Unit,
         "v" => DynType::Value,
         "O" => DynType::Opt(Box::new(parse_ty(t)?)),
+        "Y" => DynType::Spanned(Box::new(parse_ty(t)?)),
         "L" => DynType::Seq(Box::new(parse_ty(t)?)),
         "M" => {
             let k = parse_ty(t)?;
@@ -319,6 +322,10 @@ pub fn parse_val(t: &mut Toks<'_>) -> Result<Dyn, String> {
         "U" => Dyn::Unit,
         "N" => Dyn::None,
         "O" => Dyn::Some(Box::new(parse_val(t)?)),
+        "Y" => {
+            let (a, b) = rest.split_once('-').ok_or("bad span")?;
+            Dyn::Spanned(a.parse().map_err(|_| "bad span")?, b.parse().map_err(|_| "bad span")?, Box::new(parse_val(t)?))
+        }
         "L" => Dyn::Seq(vals(t, count(rest)?)?),
         "R" => Dyn::Rec(vals(t, count(rest)?)?),
         "M" => {
@@ -414,6 +421,10 @@ pub fn dump_val(v: &Dyn, out: &mut Vec<String>) {
         Dyn::None => out.push("N".into()),
         Dyn::Some(v) => {
             out.push("O".into());
+            dump_val(v, out);
+        }
+        Dyn::Spanned(a, b, v) => {
+            out.push(format!("Y{a}-{b}"));
             dump_val(v, out);
         }
         Dyn::Seq(vs) => {
